@@ -331,6 +331,7 @@ func drawC13(t *rapid.T, maxLen int) C13Case {
 	}
 	if aff, ok := c13Affinity[c.Transform]; ok && rapid.IntRange(0, 2).Draw(t, "affine") != 0 {
 		c.Data.Kind = rapid.SampledFrom(aff).Draw(t, "affkind")
+		gen.FixEdge(t, &c.Data, "data")
 		if c.Data.Len < 1100 && rapid.Bool().Draw(t, "bigger") {
 			c.Data.Len += 4096
 		}
